@@ -142,8 +142,42 @@ def _export_spec(image, trace):
 c.ens("writer-geometry-by-bits-and-colour-space", lambda image, trace: _export_spec(image, trace))
 
 
+# -- _save_jpeg (gray / RGB): the file receives exactly the decoded stream data - what is left once every filter before DCTDecode has been undone and the
+#    document's encryption removed - never the stored bytes -------------------------------------------------------------------------------------------------
+class _JpegImg(T.Sort):
+    def fresh(self, ctx, name):
+        decoded, stored = T.Bytes().fresh(ctx, "decoded"), T.Bytes().fresh(ctx, "stored")
+        cs = ctx.choose([[pc.LITERAL_DEVICE_GRAY], [pc.LITERAL_DEVICE_RGB], [pc.LITERAL_INLINE_DEVICE_RGB], []], "colorspace")
+        strm = SObj(None, {"get_data": SymFn(lambda I: decoded, "get_data"), "get_rawdata": SymFn(lambda I: stored, "get_rawdata"), "rawdata": stored, "data": None}, "stream")
+        return SObj(None, {"stream": strm, "colorspace": cs, "_decoded": decoded, "_stored": stored}, name)
+    def sample(self, rng):
+        return None
+    def from_model(self, ev, v):
+        return {"decoded": T.Bytes().from_model(ev, v.f["_decoded"]).hex(), "stored": T.Bytes().from_model(ev, v.f["_stored"]).hex()}
+
+
+def _same_bytes(a, b):
+    if not (isinstance(a, SBytes) and isinstance(b, SBytes)):
+        return False
+    return And(eq(a.n, b.n), ForAllInt(0, b.n, lambda t: eq(a.at(t), b.at(t)), "t"))
+
+
+for _m, _ext in (("_save_jpeg", ".jpg"),):
+    c = contract("pdfminer.image:ImageWriter.%s%s" % (_m, "#not-cmyk" if _m == "_save_jpeg" else ""), props=["C18"])
+    c.modname, c.qualname = "pdfminer.image", "ImageWriter.%s" % _m
+    c.param("self", T.Obj("pdfminer.image:ImageWriter")).param("image", _JpegImg())
+    c.skip_cross = True
+    _un = stub("pdfminer.image:ImageWriter._create_unique_image_name", ["self", "image", "ext"])
+    _un.result_fn = ("name-and-path", lambda ext: ("<name>", "<path>"))
+    c.stubs = {"pdfminer.image:ImageWriter._create_unique_image_name": _un}
+    if _m == "_save_jpeg":
+        c.ens("decoded-data-byte-for-byte-into-the-uniquely-named-file", (lambda ext: lambda image, result, trace: And(
+            result == "<name>", len(trace) == 2, trace[0][0].endswith("_create_unique_image_name"), trace[0][1]["ext"] == ext,
+            trace[1][0] == "open.write", trace[1][1]["path"] == "<path>", trace[1][1]["mode"] == "wb", _same_bytes(trace[1][1]["data"], image._decoded)))(_ext))
+
+
 @bounded("exported-bitmaps-read-back", props=["C18"],
-         bound="quick: 90 generated documents with 1..3 image XObjects (gray 8-bit, RGB 8-bit, 1-bit; width 1..40 incl. widths with width%32 in 1..7; height 1..4; unfiltered, Flate, ASCIIHex+Flate), exported with output_dir and read back with an independent BMP reader; distinct images get distinct files, existing files are kept; thorough: 2000")
+         bound="quick: 90 generated documents with 1..3 image XObjects (gray 8-bit, RGB 8-bit, 1-bit; width 1..40 incl. widths with width%32 in 1..7; height 1..4; unfiltered, Flate, ASCIIHex+Flate; or DCT data alone / behind Flate / ASCIIHex / ASCII85+Flate, compared byte for byte), exported with output_dir and read back with an independent BMP reader; distinct images get distinct files, existing files are kept; thorough: 2000")
 def _(tier, seed):
     import io, os, random, shutil, tempfile, zlib
     from specs.pdfgen import build, Name, Ref, Stream
@@ -159,10 +193,29 @@ def _(tier, seed):
             os.makedirs(outdir)
             open(os.path.join(outdir, "Im0.bmp"), "wb").write(b"pre-existing")
             objs = {1: {"Type": Name("Catalog"), "Pages": Ref(2)}, 2: {"Type": Name("Pages"), "Kids": [Ref(3)], "Count": 1}}
-            xobjs, expect = {}, []
+            xobjs, expect, expect_jpg = {}, [], []
             for k in range(rng.randint(1, 3)):
-                kind = rng.choice(["gray", "rgb", "bw"])
+                kind = rng.choice(["gray", "rgb", "bw", "jpeg"])
                 w = rng.choice([1, 2, 3, 7, 8, 9, 31, 33, 35, 38, 40]); h = rng.randint(1, 4)
+                if kind == "jpeg":
+                    # DCT data is written through without being parsed: any byte string between the JPEG markers will do; the chain before DCTDecode must be undone
+                    jpg = b"\xff\xd8" + bytes(rng.randrange(256) for _ in range(rng.randint(0, 60))) + b"\xff\xd9"
+                    chain = rng.choice([[], ["FlateDecode"], ["ASCIIHexDecode"], ["ASCII85Decode", "FlateDecode"]])
+                    data = jpg
+                    for f_ in reversed(chain):
+                        if f_ == "FlateDecode":
+                            data = zlib.compress(data)
+                        elif f_ == "ASCIIHexDecode":
+                            data = data.hex().encode() + b">"
+                        else:
+                            import base64
+                            data = base64.a85encode(data) + b"~>"
+                    d = {"Type": Name("XObject"), "Subtype": Name("Image"), "Width": w, "Height": h, "BitsPerComponent": 8, "ColorSpace": Name(rng.choice(["DeviceRGB", "DeviceGray"])),
+                         "Filter": [Name(f_) for f_ in chain] + [Name("DCTDecode")]}
+                    objs[10 + k] = Stream(d, data)
+                    xobjs["Im%d" % k] = Ref(10 + k)
+                    expect_jpg.append(jpg)
+                    continue
                 if kind == "gray":
                     raw = bytes(rng.randrange(256) for _ in range(w * h)); d = {"BitsPerComponent": 8, "ColorSpace": Name("DeviceGray")}
                     pix = [[(raw[y * w + x],) * 3 for x in range(w)] for y in range(h)]
@@ -187,16 +240,19 @@ def _(tier, seed):
             objs[3] = {"Type": Name("Page"), "Parent": Ref(2), "MediaBox": [0, 0, 200, 200], "Contents": Ref(4), "Resources": {"XObject": xobjs}}
             objs[4] = Stream({}, content.encode())
             evals += 1
-            distinct.add(tuple((w, h) for w, h, _p in expect))
+            distinct.add(tuple((w, h) for w, h, _p in expect) + tuple(len(j) for j in expect_jpg))
             try:
                 hl.extract_text_to_fp(io.BytesIO(build(objs, 1)), io.StringIO(), output_dir=outdir)
                 files = sorted(f for f in os.listdir(outdir) if f != "Im0.bmp")
-                got = []
+                got, got_jpg = [], []
                 for f in files:
-                    got.append(read_bmp(open(os.path.join(outdir, f), "rb").read()))
+                    if f.endswith(".jpg"):
+                        got_jpg.append(open(os.path.join(outdir, f), "rb").read())
+                    else:
+                        got.append(read_bmp(open(os.path.join(outdir, f), "rb").read()))
                 kept = open(os.path.join(outdir, "Im0.bmp"), "rb").read() == b"pre-existing"
-                ok = kept and len(got) == len(expect) and sorted(map(repr, got)) == sorted(repr((w, h, p)) for w, h, p in expect)
-                detail = dict(files=files, kept=kept, got=repr(got)[:300], want=repr(expect)[:300])
+                ok = kept and len(got) == len(expect) and sorted(map(repr, got)) == sorted(repr((w, h, p)) for w, h, p in expect) and sorted(got_jpg) == sorted(expect_jpg)
+                detail = dict(files=files, kept=kept, got=repr(got)[:300], want=repr(expect)[:300], jpeg_files=[g.hex()[:80] for g in sorted(got_jpg)], jpeg_stored=[g.hex()[:80] for g in sorted(expect_jpg)])
             except Exception as e:  # noqa: BLE001
                 ok, detail = False, "%s: %s" % (type(e).__name__, e)
             if not ok:
